@@ -207,6 +207,15 @@ def gen_cases(rng, ctx):
         toks = [[sk, rng.below(65536), dk, rng.below(65536)], sipb, dipb, pl]
         cases.append(Case(line("c06_encode", toks), line("c06_encode", toks), line("c06_encode_spec", toks),
                           kind="encode", nontrivial=True))
+    # the addresses of address_field_round_trip that the 16-byte field cannot tell apart, and their neighbours
+    edge4 = [[0, 0, 0, 1], [0, 0, 0, 0], [0, 0, 0, 2], [255, 255, 255, 255], [1, 0, 0, 0]]
+    edge6 = [[0] * 15 + [1], [0] * 15 + [5], [0] * 16, [0] * 12 + [1, 2, 3, 4], [0] * 11 + [1, 0, 0, 0, 0],
+             [0] * 10 + [255, 255, 1, 2, 3, 4], [255] * 16, [0x20, 1] + [0] * 14]
+    for (sk, sipb) in [(4, b) for b in edge4] + [(6, b) for b in edge6]:
+        for (dk, dipb) in [(4, edge4[0]), (6, edge6[1])]:
+            toks = [[sk, 7, dk, 65535], sipb, dipb, [9, 9]]
+            cases.append(Case(line("c06_encode", toks), line("c06_encode", toks), line("c06_encode_spec", toks),
+                              kind="encode", nontrivial=True, meta={"edge": True}))
     return cases
 
 
